@@ -57,7 +57,10 @@ const (
 )
 
 func vC17Gen(e *vEnv, r *vRand) []vCase {
-	var cases []vCase
+	// order of the result: window cases, threshold cases, random timelines, key sharing — a difference in
+	// the steps whose goroutines pile up at the mutex shows on every execution, so it is found first and
+	// survives the re-executions of the shrinker
+	var cases, scripted []vCase
 	n := e.scale(200, 3000)
 	maxOps := e.scale(60, 200)
 	for i := 0; i < n; i++ {
@@ -108,7 +111,9 @@ func vC17Gen(e *vEnv, r *vRand) []vCase {
 				ops = append(ops, fmt.Sprintf("throttle %d %s %s", now-int64(rr.intn(3))*vSec, vAddrToken(addr), vEnc(act)))
 			case k == 3 || (k == 4 && rr.chance(1, 2)):
 				// several connections of one address fail at the same moment
-				ops = append(ops, vC17Par(rr, now, addr, act))
+				op := vC17Par(rr, now, addr, act, !nonMono && !twoPhase)
+				ops = append(ops, op)
+				now += vC17ParDt(op)
 			case k < 6:
 				// burst of failures from one address
 				b := 1 + rr.intn(12)
@@ -147,7 +152,7 @@ func vC17Gen(e *vEnv, r *vRand) []vCase {
 				n = 1
 			}
 		}
-		ops = append(ops, fmt.Sprintf("par %d %s %s %d %d %d", now, vAddrToken(addr), vEnc(act), n, rr.intn(3), rr.intn(2)*rr.intn(4)))
+		ops = append(ops, fmt.Sprintf("par %d %s %s %d %d %d 0", now, vAddrToken(addr), vEnc(act), n, rr.intn(3), rr.intn(2)*rr.intn(4)))
 		for j := 0; j < 1+rr.intn(6); j++ {
 			switch rr.intn(5) {
 			case 0:
@@ -164,13 +169,60 @@ func vC17Gen(e *vEnv, r *vRand) []vCase {
 				other = rr.pick(vC17Addrs)
 			}
 			if rr.chance(1, 3) {
-				ops = append(ops, vC17Par(rr, now, other, act))
+				op := vC17Par(rr, now, other, act, true)
+				ops = append(ops, op)
+				now += vC17ParDt(op)
 			} else {
 				ops = append(ops, fmt.Sprintf("attempt %d %s %s %d", now, vAddrToken(other), vEnc(act), rr.intn(2)))
 			}
 		}
-		cases = append(cases, vCase{Ops: ops, Tags: []string{"par"}})
+		scripted = append(scripted, vCase{Ops: ops, Tags: []string{"par"}})
 	}
+	// the window of CheckBruteforce: old records that expire between the moment n connections were let
+	// through and the moment they fail, while m further connections are being checked (which prunes)
+	for i := 0; i < e.scale(40, 400); i++ {
+		rr := r.fork()
+		var ops []string
+		t0 := int64(rr.intn(1000)) * vSec
+		now := t0
+		addr := rr.pick(vC17Addrs)
+		act := rr.pick(vC17Actions)
+		for j := 0; j < 1+rr.intn(3); j++ {
+			ops = append(ops, fmt.Sprintf("attempt %d %s %s 1", now, vAddrToken(addr), vEnc(act)))
+			now += int64(rr.intn(3)) * vSec
+		}
+		last := now
+		if rr.chance(1, 3) {
+			// some younger records in between
+			now = t0 + int64(1+rr.intn(11))*vHour
+			for j := 0; j < 1+rr.intn(4); j++ {
+				ops = append(ops, fmt.Sprintf("attempt %d %s %s 1", now, vAddrToken(addr), vEnc(act)))
+				now += int64(rr.intn(3)) * vSec
+			}
+		}
+		// let through shortly before the first record expires, failing shortly after the last old one did
+		delta := int64(1+rr.intn(60)) * vSec
+		start := t0 + 12*vHour - delta
+		if start < now {
+			start = now
+		}
+		dt := last + 12*vHour + int64(1+rr.intn(30))*vSec - start
+		mode := []int{1, 1, 1, 2, 2, 0}[rr.intn(6)]
+		ops = append(ops, fmt.Sprintf("par %d %s %s %d %d %d %d", start, vAddrToken(addr), vEnc(act), 2+rr.intn(8), mode, 1+rr.intn(4), dt))
+		now = start + dt
+		for j := 0; j < rr.intn(4); j++ {
+			now += int64(rr.intn(5)) * vSec
+			if rr.chance(1, 2) {
+				ops = append(ops, fmt.Sprintf("attempt %d %s %s %d", now, vAddrToken(addr), vEnc(act), rr.intn(2)))
+			} else {
+				op := vC17Par(rr, now, addr, act, true)
+				ops = append(ops, op)
+				now += vC17ParDt(op)
+			}
+		}
+		scripted = append([]vCase{{Ops: ops, Tags: []string{"window"}}}, scripted...)
+	}
+	cases = append(scripted, cases...)
 	// key sharing of getThrottleIp, all pairs of the address pool
 	var ops []string
 	for _, a := range vC17Addrs {
@@ -182,11 +234,12 @@ func vC17Gen(e *vEnv, r *vRand) []vCase {
 	return cases
 }
 
-// vC17Par: "par <now> <addr> <action> <n> <mode> <m>" — n connections of one address pass the check, then
-// their failures are recorded by n goroutines at once, while m further connections of that address are
-// being checked.  mode = how the goroutines are let loose: 0 a closed channel, 1 / 2 they pile up at the
-// throttler's mutex, which the harness holds for writing / for reading until all have arrived.
-func vC17Par(rr *vRand, now int64, addr, act string) string {
+// vC17Par: "par <now> <addr> <action> <n> <mode> <m> <dt>" — n connections of one address pass the check at
+// <now>, then (at <now>+<dt>) their failures are recorded by n goroutines at once, while m further
+// connections of that address are being checked.  mode = how the goroutines are let loose: 0 a closed
+// channel, 1 / 2 they pile up at the throttler's mutex, which the harness holds for writing / for reading
+// until all have arrived.  Observed at rest, at <now>+<dt>.
+func vC17Par(rr *vRand, now int64, addr, act string, late bool) string {
 	n := 2 + rr.intn(5)
 	switch rr.intn(6) {
 	case 0:
@@ -194,7 +247,27 @@ func vC17Par(rr *vRand, now int64, addr, act string) string {
 	case 1:
 		n = 8 + rr.intn(10)
 	}
-	return fmt.Sprintf("par %d %s %s %d %d %d", now, vAddrToken(addr), vEnc(act), n, rr.intn(3), rr.intn(2)*rr.intn(4))
+	m := rr.intn(2) * rr.intn(4)
+	dt := int64(0)
+	if rr.chance(1, 3) && (late || m == 0) {
+		switch rr.intn(4) {
+		case 0:
+			dt = int64(rr.intn(5000)) * int64(time.Millisecond)
+		case 1:
+			dt = 30*vMin - 2*vSec + int64(rr.intn(5))*vSec
+		case 2:
+			dt = 12*vHour - 2*vSec + int64(rr.intn(5))*vSec
+		default:
+			dt = int64(rr.intn(90)) * vMin
+		}
+	}
+	return fmt.Sprintf("par %d %s %s %d %d %d %d", now, vAddrToken(addr), vEnc(act), n, rr.intn(3), m, dt)
+}
+
+func vC17ParDt(op string) int64 {
+	f := strings.Fields(op)
+	dt, _ := strconv.ParseInt(f[len(f)-1], 10, 64)
+	return dt
 }
 
 func vC17List(pfx string, xs []int64) string {
@@ -274,7 +347,7 @@ func vC17Exec(t *testing.T, c *vCase) {
 			}
 		case "par":
 			// Observed at rest only: whatever order the scheduler chose must give the same table.
-			if len(f) != 7 {
+			if len(f) != 8 {
 				break
 			}
 			ns, _ := strconv.ParseInt(f[1], 10, 64)
@@ -284,6 +357,8 @@ func vC17Exec(t *testing.T, c *vCase) {
 			n, _ := strconv.Atoi(f[4])
 			mode := f[5]
 			m, _ := strconv.Atoi(f[6])
+			dt, _ := strconv.ParseInt(f[7], 10, 64)
+			loose := dt != 0 && f[6] != "0"
 			var fns []ThrottleFunc
 			for i := 0; i < n || i < 1; i++ {
 				if fn, err := th.CheckBruteforce(ctx, addr, act); err == nil && i < n {
@@ -291,6 +366,8 @@ func vC17Exec(t *testing.T, c *vCase) {
 				}
 			}
 			delays = nil
+			// the failures happen (and the further checks are made) dt later
+			now = now.Add(time.Duration(dt))
 			var wg sync.WaitGroup
 			var arrived atomic.Int32
 			start := make(chan struct{})
@@ -347,9 +424,11 @@ func vC17Exec(t *testing.T, c *vCase) {
 			_, err := th.CheckBruteforce(ctx, addr, act)
 			var recs []int64
 			young := 0
+			// records that expired are left out: whether they are still in the list depends on which of the
+			// concurrent checks found the address blocked
 			for _, en := range th.getEntries(addr, act) {
-				recs = append(recs, int64(en.ts.Sub(vC17Base)))
 				if now.Sub(en.ts) <= 12*time.Hour {
+					recs = append(recs, int64(en.ts.Sub(vC17Base)))
 					young++
 				}
 			}
@@ -361,7 +440,12 @@ func vC17Exec(t *testing.T, c *vCase) {
 			if err != nil {
 				blocked = 1
 			}
-			out = fmt.Sprintf("rest %d %d %d %s %s", len(fns), young, blocked, vC17List("d:", ds), vC17List("r:", recs))
+			dpfx := "d:"
+			if loose {
+				// which failure found how many earlier ones depends on when the old records were pruned
+				dpfx = "D:"
+			}
+			out = fmt.Sprintf("rest %d %d %d %s %s", len(fns), young, blocked, vC17List(dpfx, ds), vC17List("r:", recs))
 		case "keyeq":
 			if getThrottleIp(vAddrFromToken(f[1])) == getThrottleIp(vAddrFromToken(f[2])) {
 				out = "1"
